@@ -1133,7 +1133,9 @@ impl StepOracle for StructureOracle {
             tags.push("account_closed");
             let target = if matches!(c.a, Action::CloseOriginal { .. }) { c.w.users[*u].account } else { act::cur_account(c.w, &c.pre.s, *u) };
             if let Some(pre) = world::try_account(&c.pre.s, &target) {
-                let nonempty = pre.lending_account.balances.iter().any(|b| b.active != 0 && (rf::q(b.asset_shares) >= rf::qone() || rf::q(b.liability_shares) >= rf::qone()));
+                // empty = no position holds anything at all (a position of less than one share is still a position:
+                // closing the account over it would strand it in the bank's totals)
+                let nonempty = pre.lending_account.balances.iter().any(|b| b.active != 0 && (rf::q(b.asset_shares) > rf::qzero() || rf::q(b.liability_shares) > rf::qzero()));
                 let bad_flags = pre.account_flags & (ACCOUNT_DISABLED | ACCOUNT_FROZEN | ACCOUNT_IN_FLASHLOAN | ACCOUNT_IN_RECEIVERSHIP);
                 if nonempty || bad_flags != 0 {
                     out.push(Violation { clause: "C16.close_only_when_empty".into(), detail: format!("account closed with non-empty positions={} flags={:#b}", nonempty, pre.account_flags) });
